@@ -390,7 +390,11 @@ void TcpConnection::handleWrite()
         }
         if (state_ == kDisconnecting)
         {
-          shutdownInLoop();
+          // queued, not called at once: a send() accepted before shutdown()
+          // may still be waiting in the loop's queue, and the half-close must
+          // stay behind it
+          loop_->queueInLoop(
+              std::bind(&TcpConnection::shutdownInLoop, shared_from_this()));
         }
       }
     }
